@@ -15,6 +15,8 @@ type Which struct {
 	Bounds    bool
 	ReuseAs   bool
 	R3        bool
+	// Siblings lists directories whose Weighted/unweighted type pairs are compared
+	Siblings []string
 	// only generated pairs whose destination lies under one of these prefixes
 	Prefixes []string
 	// only these bounds families ("mat-index", "fftpack-array"); empty = all
@@ -30,6 +32,7 @@ func Run(w Which) *core.Result {
 	res.Rules = append(res.Rules,
 		"TWIN.bounds: the bounds/!bounds twin files ('must be kept in sync') have identical bodies once guard statements are set aside, and the guards on each access path (exported wrapper + unexported accessor) agree",
 		"TWIN.sync: reuseAsNonZeroed and reuseAsZeroed differ only by use/useZeroed and the trailing Zero()",
+		"TWIN.sibling: in graph/iterator every type and its Weighted sibling have methods that are images of each other under the Weighted renaming",
 		"TWIN.r3: the safe and unsafe 3x3 builders store the same expression to each element")
 	if w.Generated {
 		runGenerated(res, w.Prefixes)
@@ -42,6 +45,9 @@ func Run(w Which) *core.Result {
 	}
 	if w.R3 {
 		runR3(res)
+	}
+	for _, d := range w.Siblings {
+		runWeightedSiblings(res, d)
 	}
 	return res
 }
